@@ -1287,6 +1287,61 @@ def ob_range(label, which):
     return fn
 
 
+# a sampling scheme without serial sampling in the most recent epoch (psi = 0 there) whose present-day tips are rho-sampled, serial tips older
+def _psi_zero_case(removal):
+    import torchtree.evolution.bdsk as bd
+    tips = [0.0, 0.0, 0.0, 3.0]
+    tree = (((0, 1), 2), 3)
+    hs = {(0, 1): 1.0, ((0, 1), 2): 4.0, (((0, 1), 2), 3): 5.0}
+    x0 = 6.0
+    b = [0.0, 2.0]                       # backward boundaries: the recent epoch covers ages 0..2
+    lam, mu, psi, rho = [3.0, 2.0], [1.5, 1.0], [0.0, 0.5], [0.3, 0.0]
+    ep = S.Epochs(b, lam, mu, psi, rho, None if removal is None else [removal] * 2)
+    ode = S.ode_log_density(tree, tips, lambda s_: hs[s_], x0, ep, survival=True)
+    if removal is not None:
+        ode += S.labelled_factor_log(len(tips))
+    t64 = lambda v: torch.tensor(v, dtype=torch.float64)
+    rev = lambda v: t64(list(reversed(v)))
+    kw = {} if removal is None else {"removal_probability": t64([removal] * 2)}
+    try:
+        d = bd.PiecewiseConstantBirthDeath(rev(lam), rev(mu), rev(psi), rho=rev(rho), origin=t64([x0]), times=t64([0.0, x0 - b[1]]), survival=True, **kw)
+        psi_p = d.psi.clone().requires_grad_(True)
+        d.psi = psi_p
+        val = d.log_prob(t64(tips + [hs[k] for k in hs]))
+        got = float(val.reshape(-1)[0])
+        val.sum().backward()
+        grad = psi_p.grad.tolist()
+    except Exception as e:
+        if not _raised_in_repo(e):
+            raise
+        got, grad = "%s: %s" % (type(e).__name__, str(e)[:120]), None
+    return got, ode, grad
+
+
+def _psi_zero_problem(removal):
+    got, ode, grad = _psi_zero_case(removal)
+    if isinstance(got, str) or not (abs(got - ode) <= 1e-6 * max(1.0, abs(ode))):
+        return "psi = [0.5, 0] (no serial sampling in the most recent epoch), rho = 0.3 at the present, three rho-sampled tips and one serial tip of age 3, removal=%s: log density %s, master equations %.8f" % (
+            removal, got if isinstance(got, str) else repr(got), ode)
+    if grad is None or any(g != g for g in grad):
+        return "same scheme: the value is right (%.8f) but the gradient w.r.t. the sampling rates is %s" % (got, grad)
+    return None
+
+
+def ob_psi_zero(removal):
+    def fn():
+        msg = _psi_zero_problem(removal)
+        if msg:
+            raise Refuted(msg, witness={"removal": removal}, confirmed=True, replay={"kind": "custom", "contract": "C09", "func": "replay_psi_zero", "args": {"removal": removal}})
+        return {"backend": "numeric (RK4 master equations vs real code)", "cases": 1, "statement": "sampling scheme with psi = 0 in the epoch of the rho-sampled tips: density = master equations, finite gradient"}
+    return fn
+
+
+def replay_psi_zero(args):
+    msg = _psi_zero_problem(args.get("removal"))
+    return (False, msg) if msg else (True, "held")
+
+
 # default epoch grid (times=None): the boundaries are cumulative sums of origin/m, the last of which need not be bit-equal to the origin
 _GRID_ORIGINS = (6.2, 5.3, 6.0, 10.0, 7.7, 3.3)
 
@@ -1636,6 +1691,9 @@ def obligations(tier, seed):
         sc("C09.single_epoch.model_call[T=%d,tips=%s]" % (T, tips), "scn_model_call", (T, tips, "sym", True),
            "BDSKModel._call: (R, delta, s) parameterisation of the same density")
 
+    for removal in (None, 0.4):
+        obs.append(Ob("C09.master_equations.psi_zero_recent_epoch[removal=%s]" % removal, "B", ob_psi_zero(removal),
+                      clause="matches the master equations for a sampling scheme without serial sampling in the epoch that holds the rho-sampled tips", funcs=FUNCS))
     obs.append(Ob("C09.refine.default_grid", "B", ob_default_grid(), clause="unchanged when an epoch is split into sub-epochs with identical rates (default grid: boundaries that are sums of origin/m)", funcs=FUNCS))
     for label in _RANGE_CASES:
         for which in ("1", "3", "constant"):
